@@ -22,7 +22,7 @@ use cosmwasm_std::{
 use cw_multi_test::error::AnyResult;
 use cw_multi_test::{
     AcceptingModule, App, AppResponse, Bank, BankKeeper, BankSudo, BasicAppBuilder, CosmosRouter, Distribution, DistributionKeeper, Executor, FailingModule, Gov, Ibc, Module, StakeKeeper, Staking, StakingSudo,
-    Stargate, StargateAccepting, StargateFailing, SudoMsg, WasmKeeper, WasmSudo,
+    Stargate, StargateAccepting, StargateFailing, SudoMsg, Wasm, WasmKeeper, WasmSudo,
 };
 use serde::de::DeserializeOwned;
 use serde::{Deserialize, Serialize};
@@ -129,6 +129,47 @@ impl Distribution for Rec<DistributionKeeper> {}
 impl Ibc for Rec<FailingModule<IbcMsg, IbcQuery, Empty>> {}
 impl Gov for Rec<FailingModule<GovMsg, Empty, Empty>> {}
 
+/// Recording wasm module: a configured wasm module that delegates everything to the crate's keeper.
+/// Every WasmMsg, top-level or emitted by a contract, must pass through it.
+pub struct RecWasm {
+    pub inner: WasmKeeper<XMsg, XQuery>,
+}
+
+impl Wasm<XMsg, XQuery> for RecWasm {
+    fn execute(&self, api: &dyn Api, storage: &mut dyn Storage, router: &dyn CosmosRouter<ExecC = XMsg, QueryC = XQuery>, block: &BlockInfo, sender: Addr, msg: WasmMsg) -> AnyResult<AppResponse> {
+        let target = match &msg {
+            WasmMsg::Execute { contract_addr, .. } => contract_addr.clone(),
+            WasmMsg::Instantiate { .. } => "<instantiate>".to_string(),
+            other => format!("{:?}", other).chars().take(40).collect(),
+        };
+        rlog("wasm", "exec", sender.as_str(), target);
+        self.inner.execute(api, storage, router, block, sender, msg)
+    }
+    fn query(&self, api: &dyn Api, storage: &dyn Storage, querier: &dyn Querier, block: &BlockInfo, request: WasmQuery) -> AnyResult<Binary> {
+        rlog("wasm", "query", "", serde_json::to_string(&request).unwrap_or_default());
+        self.inner.query(api, storage, querier, block, request)
+    }
+    fn sudo(&self, api: &dyn Api, storage: &mut dyn Storage, router: &dyn CosmosRouter<ExecC = XMsg, QueryC = XQuery>, block: &BlockInfo, msg: WasmSudo) -> AnyResult<AppResponse> {
+        rlog("wasm", "sudo", "", msg.contract_addr.to_string());
+        self.inner.sudo(api, storage, router, block, msg)
+    }
+    fn store_code(&mut self, creator: Addr, code: Box<dyn cw_multi_test::Contract<XMsg, XQuery>>) -> u64 {
+        self.inner.store_code(creator, code)
+    }
+    fn store_code_with_id(&mut self, creator: Addr, code_id: u64, code: Box<dyn cw_multi_test::Contract<XMsg, XQuery>>) -> AnyResult<u64> {
+        self.inner.store_code_with_id(creator, code_id, code)
+    }
+    fn duplicate_code(&mut self, code_id: u64) -> AnyResult<u64> {
+        self.inner.duplicate_code(code_id)
+    }
+    fn contract_data(&self, storage: &dyn Storage, address: &Addr) -> AnyResult<cw_multi_test::ContractData> {
+        self.inner.contract_data(storage, address)
+    }
+    fn dump_wasm_raw(&self, storage: &dyn Storage, address: &Addr) -> Vec<cosmwasm_std::Record> {
+        self.inner.dump_wasm_raw(storage, address)
+    }
+}
+
 pub struct RecStargate {
     pub mode: Mode,
 }
@@ -174,7 +215,7 @@ impl Stargate for RecStargate {
     }
 }
 
-type RApp = App<Rec<BankKeeper>, MockApi, MockStorage, Rec<FailingModule<XMsg, XQuery, Empty>>, WasmKeeper<XMsg, XQuery>, Rec<StakeKeeper>, Rec<DistributionKeeper>, Rec<FailingModule<IbcMsg, IbcQuery, Empty>>, Rec<FailingModule<GovMsg, Empty, Empty>>, RecStargate>;
+type RApp = App<Rec<BankKeeper>, MockApi, MockStorage, Rec<FailingModule<XMsg, XQuery, Empty>>, RecWasm, Rec<StakeKeeper>, Rec<DistributionKeeper>, Rec<FailingModule<IbcMsg, IbcQuery, Empty>>, Rec<FailingModule<GovMsg, Empty, Empty>>, RecStargate>;
 
 // ---------------------------------------------------------------- case
 
@@ -282,6 +323,7 @@ fn build(modes: &[Mode]) -> Built {
         .with_ibc(Rec { inner: FailingModule::<IbcMsg, IbcQuery, Empty>::new(), mode: m(4), slot: "ibc" })
         .with_gov(Rec { inner: FailingModule::<GovMsg, Empty, Empty>::new(), mode: m(5), slot: "gov" })
         .with_stargate(RecStargate { mode: m(6) })
+        .with_wasm(RecWasm { inner: WasmKeeper::new() })
         .build(|router, api, storage| {
             router.bank.inner.init_balance(storage, &u2, vec![coin(1000, "TOKEN"), coin(1000, "eth")]).unwrap();
             let v = Validator::new("validator1".to_string(), Decimal::percent(10), Decimal::percent(20), Decimal::percent(1));
@@ -521,7 +563,17 @@ impl RoutingCheck {
                 // --- the log: exactly one entry for the routed message, in the right slot
                 // ignored: the puppets' own balance probe at entry, and the coins the real stake keeper
                 // moves through the bank module
-                let mine: Vec<&LogEntry> = log.iter().filter(|e| !(e.slot == "bank" && e.op == "query" && e.payload.contains("all_balances"))).filter(|e| !(e.slot == "bank" && eslot == "staking" && mode == Mode::Default)).collect();
+                // the configured wasm module must see every hop of the call chain, with the true sender
+                let wasm_seen: Vec<(String, String)> = log.iter().filter(|e| e.slot == "wasm" && e.op == "exec").map(|e| (e.sender.clone(), e.payload.clone())).collect();
+                let mut wasm_want: Vec<(String, String)> = vec![];
+                for (i, c) in chain.iter().enumerate() {
+                    wasm_want.push((if i == 0 { b.user.to_string() } else { chain[i - 1].to_string() }, c.to_string()));
+                }
+                if case.sibling && !chain.is_empty() {
+                    wasm_want.push((emitter.to_string(), b.helper.to_string()));
+                }
+                ensure!(wasm_seen == wasm_want, "C17:wasm-module-bypassed", "{:?} from {:?}: the configured wasm module saw the calls {:?}, the call chain is {:?}", k, case.origin, wasm_seen, wasm_want);
+                let mine: Vec<&LogEntry> = log.iter().filter(|e| e.slot != "wasm").filter(|e| !(e.slot == "bank" && e.op == "query" && e.payload.contains("all_balances"))).filter(|e| !(e.slot == "bank" && eslot == "staking" && mode == Mode::Default)).collect();
                 let hits: Vec<&&LogEntry> = mine.iter().filter(|e| e.slot == eslot && e.op == eop && e.payload == epayload).collect();
                 ensure!(!hits.is_empty(), "C17:message-not-delivered", "{:?} from {:?}: the {} module never received the message (payload {}); log: {:?}", k, case.origin, eslot, epayload, log);
                 ensure!(hits.len() == 1, "C17:message-delivered-twice", "{:?}: delivered {} times to {}", k, hits.len(), eslot);
@@ -606,7 +658,9 @@ impl RoutingCheck {
                 let log = take_rlog();
                 // own-balance probes of the puppets go to the bank slot; ignore those
                 let probes = |e: &&LogEntry| e.slot == "bank" && e.op == "query" && e.payload.contains("all_balances");
-                let rest: Vec<&LogEntry> = log.iter().filter(|e| !probes(e)).collect();
+                let wasm_hops = log.iter().filter(|e| e.slot == "wasm" && e.op == "exec").count();
+                ensure!(wasm_hops == chain.len(), "C17:wasm-module-bypassed", "query {:?} from {:?}: the configured wasm module saw {} of {} calls of the chain", q, case.origin, wasm_hops, chain.len());
+                let rest: Vec<&LogEntry> = log.iter().filter(|e| !probes(e) && e.slot != "wasm").collect();
                 let hits = rest.iter().filter(|e| e.slot == SLOTS[slot] && e.op == eop && e.payload == epayload).count();
                 ensure!(hits == 1, "C17:query-not-delivered", "query {:?} from {:?}: {} deliveries to {} (log {:?})", q, case.origin, hits, SLOTS[slot], rest);
                 ensure!(rest.len() == 1, "C17:other-module-called", "query {:?} from {:?}: other module calls: {:?}", q, case.origin, rest);
